@@ -551,6 +551,45 @@ def classify_ret_attributes(e, g):
     return found
 
 
+def arrays_with_both(e, acc):
+    """signatures (zero-terminated, length index, element) of the arrays of an expected model that carry length AND fixed size"""
+    if isinstance(e, dict):
+        for v in e.values():
+            arrays_with_both(v, acc)
+    elif isinstance(e, list):
+        if len(e) == 6 and e[0] == 'array' and e[3] is not None and e[4] is not None and e[3] is not ANY and e[4] is not ANY:
+            acc.add(repr((e[2], e[3], e[5])))
+        for x in e:
+            arrays_with_both(x, acc)
+    return acc
+
+
+def classify_array_slot(e, g, shared=frozenset()):
+    """ArrayTypeBlob keeps the length parameter index and the fixed size in one union ('dimensions'): an array that has both in
+    the GIR ((array length=n fixed-size=4)) is stored with the length and the has_size flag, so the size read back is the
+    length index.  -> True when such an array was found (its size is then neutralised so that the comparison goes on)"""
+    found = False
+    if isinstance(e, dict) and isinstance(g, dict):
+        for k in e:
+            if k in g and classify_array_slot(e[k], g[k], shared):
+                found = True
+    elif isinstance(e, list) and isinstance(g, list):
+        if len(e) == 6 and len(g) == 6 and e[0] == 'array' and g[0] == 'array' and e[3] is not None and e[4] is not None and e[3] is not ANY and e[4] is not ANY:
+            if g[4] != e[4] and g[3] == e[3]:
+                g[4] = e[4]
+                found = True
+        elif len(e) == 6 and len(g) == 6 and e[0] == 'array' and g[0] == 'array' and e[3] is not None and e[4] is None and g[3] == e[3] and g[4] == e[3] \
+                and repr((e[2], e[3], e[5])) in shared:
+            # a length-only array shares its type blob (the sharing key names the length only) with such an array of the
+            # same namespace and inherits the has_size flag
+            g[4] = None
+            found = True
+        for x, y in zip(e, g):
+            if classify_array_slot(x, y, shared):
+                found = True
+    return found
+
+
 def compare(exp, got):
     """-> list of differences (entry by entry, order of entries is free)"""
     out = []
@@ -563,6 +602,9 @@ def compare(exp, got):
     ee = collections.defaultdict(list)
     for e in exp['entries']:
         ee[e['name']].append(e)
+    shared = set()
+    for e in exp['entries']:
+        arrays_with_both(e, shared)
     for nm, es in ee.items():
         if nm not in ge:
             out.append(('entry-missing:' + es[0]['kind'], 'entry %s (%s) of the GIR is not in the typelib' % (nm, es[0]['kind'])))
@@ -575,6 +617,8 @@ def compare(exp, got):
             out.append(('attributes:member-attached-to-parent', 'entry %s: <attribute>s of its fields/properties/members are stored on the %s itself' % (nm, es[0]['kind'])))
         if classify_ret_attributes(es[0], ge[nm][0]):
             out.append(('attributes:return-value-of-vfunc-or-callback', 'entry %s: <attribute>s of the return value of a virtual method / callback are not in the typelib' % nm))
+        if classify_array_slot(es[0], ge[nm][0], shared):
+            out.append(('array:length-and-fixed-size-share-one-slot', 'entry %s: an array with both length= and fixed-size= is stored with the length only; its fixed size reads back as the length index' % nm))
         d = diff(es[0], ge[nm][0], nm)
         if d:
             key = d.split(':')[0]
